@@ -12,7 +12,8 @@ def run(tier):
     rng = random.Random(sd * 733 + 19)
     po = common.proof_obligations("GasolVerif.Proofs.NormSound", THEOREMS)
     violations = [{"kind": "broken-proof-obligation", "what": b, "no_failing_input": True, "input": b} for b in po["broken"]]
-    res = c02.collect(tier, sd + 2000, rng, greedy=True)
+    import gen
+    res = c02.collect(tier, sd + 2000, rng, greedy=True, extra=gen.discount_corpus())
     c = Counter()
     reqs, meta = [], []
     for t, r, st in res:
@@ -79,12 +80,48 @@ def run(tier):
         if o.startswith("ok") and int(o[3:]) <= (undecided[n][1]["bounds"].get("max_sk_sz") or 0):
             feasible.add(n)
     c["sequences-enumerated"] = len(ereqs)
-    for n in set(emeta):
+    infeasible = []
+    for n in sorted(set(emeta)):
         t, e = undecided[n]
         if n in feasible:
             c["bounds-feasible-by-enumeration"] += 1
         else:
-            b = e["bounds"]
+            infeasible.append(n)
+    # classify: a simplification rule was applied and left a word of the initial stack without any use (it now has to be popped, which the
+    # original block never did): is the bound feasible once one instruction per such word is added back?  (known finding, see DESIGN.md)
+    creqs, cmeta = [], []
+    unused_of = {}
+    for n in infeasible:
+        t, e = undecided[n]
+        b = e["bounds"]
+        src = [x for x in e["spec"][0].split(",") if x]
+        tgt = [x for x in e["spec"][1].split(",") if x]
+        used = set(tgt) | {a for u in e["uinstrs"] for a in u[2]}
+        unused = [v for v in src if v not in used]
+        unused_of[n] = unused
+        if b.get("rules_applied") and unused:
+            b0, sk = (b.get("init_progr_len") or 0) + len(unused), b.get("max_sk_sz") or 0
+            ids = [u[0] for u in e["uinstrs"]]
+            k = max(1, min(sk, 16))
+            vocab = ids + ["POP"] + ["DUP%d" % i for i in range(1, k + 1)] + ["SWAP%d" % i for i in range(1, k + 1)]
+            if b0 <= 6 and len(vocab) ** b0 <= 400000:
+                for seq in itertools.product(vocab, repeat=b0):
+                    creqs.append("REALIZES\t%s\t%s" % ("\t".join(e["spec"]), ",".join(seq)))
+                    cmeta.append(n)
+    relaxed = set()
+    for o, n in zip(drv.batch(creqs), cmeta):
+        if o.startswith("ok") and int(o[3:]) <= (undecided[n][1]["bounds"].get("max_sk_sz") or 0):
+            relaxed.add(n)
+    for n in infeasible:
+        t, e = undecided[n]
+        b = e["bounds"]
+        if n in relaxed:
+            violations.append({"kind": "length-bound-discounted-although-a-source-word-became-unused", "input": " ".join(e["plain"]), "options": t["opts"],
+                               "what": "no instruction sequence of length <= init_progr_len=%s with stack <= max_sk_sz=%s realizes the specification of %s (%s), "
+                                       "exhaustive over its ids and DUP/SWAP/POP; a rule was applied and the initial stack word(s) %s are no longer used: with one "
+                                       "instruction more per such word the bound is feasible" % (b.get("init_progr_len"), b.get("max_sk_sz"), " ".join(e["plain"]), t["opts"], unused_of[n]),
+                               "spec": e["spec"]})
+        else:
             violations.append({"kind": "bounds-admit-no-realizing-sequence", "input": " ".join(e["plain"]), "options": t["opts"],
                                "what": "no instruction sequence of length <= init_progr_len=%s with stack <= max_sk_sz=%s realizes the specification of %s "
                                        "(%s); exhaustive over its ids and DUP/SWAP/POP" % (b.get("init_progr_len"), b.get("max_sk_sz"), " ".join(e["plain"]), t["opts"]),
